@@ -10,6 +10,9 @@ CHECKS = {
     'C06': dict(category='proof', design_ref='DESIGN.md §3 C06', technique=TECH + '; labelled bounded paired runs for hash seed / worker purity',
                 text='The dispatch loop of the real call_variant_peptide is executed symbolically for all transcript counts, skip patterns and thread counts: every non-skipped transcript is gathered, batched and handed to caller_reducer exactly once and in order, nothing is pending at exit (inductive invariant + exit obligation).',
                 note='gather_data_for_call_variant, caller_reducer/ParallelPool.map and the peptide table are assumed contracts (uninterpreted d, r; order-preserving map). Hash-seed independence, worker purity, file layout/.idx/index-dir equivalence: bounded paired runs on the demo inputs only (evidence: coverage.bounded).'),
+    'C07': dict(category='proof', design_ref='DESIGN.md §3 C07', technique=TECH + '; labelled bounded fault injection for output equality',
+                text='call_variant_peptides_wrapper is executed symbolically with every per-unit caller havocked (returns or raises anything), for any number of fusions/circRNAs: definite assignment on all exceptional paths, a failed unit merges no peptides and stores no graph, success flags false iff a unit of that kind failed, a failure without --skip-failed always propagates and never reaches write_fasta; tally increments proved in the result loop of call_variant_peptide.',
+                note='The per-unit callers and the closure add_peptide_anno are assumed (havoc / first-wins merge). Output = failure-free output minus failing units: bounded fault-injection runs on the demo inputs, threads=1 (evidence: coverage.bounded). Parser CLI loops not yet under contract.'),
 }
 
 _PENDING = 'contracts for this property are not built yet in this revision (planned: see DESIGN.md §3); not claimed until they discharge'
